@@ -229,7 +229,6 @@ CHECK = Check(
             variants=variants_seq,
             rule="seeded random sequences of 1-10 requests over 1-3 reference samples with shuffled candidate orders, issued to the real _find_random_sample with one shared registry; non-trivial = more than one request",
         ),
-    ],
         Section(
             name="validate_panel_size",
             theorems=["C14.validate_rejects_small_panels"],
